@@ -20,6 +20,7 @@
 #include <sys/un.h>
 #include <atomic>
 #include <unordered_map>
+#include <unordered_set>
 #include "oomd/Log.h"
 
 namespace Oomd {
@@ -100,6 +101,8 @@ class Stats {
   std::thread stats_thread_;
   std::mutex thread_mutex_;
   std::atomic<int> thread_count_{0};
+  // sockets of the clients being served right now (with thread_mutex_ held)
+  std::unordered_set<int> client_fds_;
   std::condition_variable thread_exited_;
 };
 
